@@ -2,8 +2,8 @@
 """Regenerates the rounds-2+ table of seeded changes in DESIGN.md from seeded/*/meta.json"""
 import json,glob,os,re
 rows=[]
-for d in sorted(glob.glob('/verif/seeded/M*')):
-    n=os.path.basename(d); num=int(n[1:3])
+for d in sorted(glob.glob('/verif/seeded/M*'), key=lambda d: int(re.match(r'M(\d+)', os.path.basename(d)).group(1))):
+    n=os.path.basename(d); num=int(re.match(r'M(\d+)',n).group(1))
     if num<=10: continue
     m=json.load(open(d+'/meta.json'))
     needs=m['needs_to_manifest']
@@ -14,14 +14,18 @@ for d in sorted(glob.glob('/verif/seeded/M*')):
         if 'inconclusive' in tail[:120]: first="**inconclusive (exit 2)**"
         elif re.match(r'\s*(only|caught only)', tail): first="caught only by a sibling check / by luck"
     elif 'Invisible to' in needs: first="**missed**"
+    elif '(first missed' in needs: first="**missed**"
+    elif '(first reported as' in needs: first="**check broken (exit 2)**"
+    elif '(first caught by a single' in needs or '(first caught only' in needs: first="caught by luck"
+    if not m['detected_by_checks']: first="not flagged on purpose"
     elif "C15's clause" in needs: first="**missed** (by C10 and C15)"
-    short=re.split(r' Initially|\. Not visible|\. Invisible|\. Caught thanks|\. This is C15', needs)[0][:260]
+    short=re.split(r' \(first |: outside C06|\. Observable only with| Auditd\.Read returns on| Initially|\. Not visible|\. Invisible|\. Caught thanks|\. This is C15', needs)[0][:260]
     rows.append(f"| {n} | {m['breaks_property']} | {short} | {first} | {', '.join(m['detected_by_checks'])} |")
 p='/verif/DESIGN.md'
 s=open(p).read()
-a=s.index("Rounds 2, 3 and 4 (") if "Rounds 2, 3 and 4 (" in s else s.index("Rounds 2 and 3 (")
+a=s.index("Rounds 2 to 7 (") if "Rounds 2 to 7 (" in s else s.index("Rounds 2 to 7 (")
 b=s.index("What the misses had in common")
-hdr='''Rounds 2, 3 and 4 (from round 3 on the agents were additionally told which kinds of change had already been
+hdr='''Rounds 2 to 7 (from round 3 on the agents were additionally told which kinds of change had already been
 seeded for their property and asked for a different site, mechanism and trigger):
 
 | name | breaks | needs | first | now caught by |
